@@ -13,8 +13,9 @@ import re
 
 from .. import effects
 from ..astutil import (u, atoms, guard_map, path_atoms, stmts_in, calls_in, callee, callee_attr, reaching_def, def_value,
-                       PARAM, AMBIGUOUS, get_arg, get_kw, is_none, is_const, has_starstar, names_in, walk_ordered)
+                       PARAM, AMBIGUOUS, get_arg, get_kw, is_none, is_const, has_starstar, names_in, walk_ordered, assigned_targets)
 from ..cfg import CFG
+from ..mini import Mini, Opaque, Return as MiniReturn
 from ..report import Undecided, Report
 
 TAINT_NAMES = {'db_path', '_genomes_path', '_signatures_path', 'genomes_file', 'signatures_file', 'db_file', 'genomes_matches', 'signatures_matches'}
@@ -87,6 +88,75 @@ def find_write_sinks(m, functions):
     return out
 
 
+class _Sym:
+    """A named uninterpreted value (module-level name, parameter stand-in). Truth value only when declared."""
+
+    def __init__(self, name, truthy=None):
+        self.name = name
+        self.truthy = truthy
+
+    def __repr__(self):
+        return f'<{self.name}>'
+
+
+def _show(v):
+    return v.name if isinstance(v, _Sym) else repr(v)
+
+
+class _ClassEval(Mini):
+    """Mini + identity tests against None / named symbols (`cls is None`)."""
+
+    def truth(self, v):
+        if isinstance(v, _Sym):
+            if v.truthy is None:
+                raise Undecided(f'truth value of {v.name} is not known')
+            return v.truthy
+        return super().truth(v)
+
+    def compare(self, op, l, r, node):
+        t = type(op).__name__
+        if t in ('Is', 'IsNot'):
+            if isinstance(l, Opaque) or isinstance(r, Opaque):
+                raise Undecided(f'identity test on an unknown value in {u(node)}')
+            same = (l is r) or (isinstance(l, _Sym) and isinstance(r, _Sym) and l.name == r.name) or (not isinstance(l, _Sym) and not isinstance(r, _Sym) and l is None and r is None)
+            return same if t == 'Is' else not same
+        if isinstance(l, _Sym) or isinstance(r, _Sym):
+            raise Undecided(f'comparison of a symbolic value in {u(node)}')
+        return super().compare(op, l, r, node)
+
+
+def _run_sessionmaker(m, fs, params):
+    """Execute file_sessionmaker's body with the given parameter values. -> ([(call node, class_ value, token)], returned value).
+    Every call yields an opaque token; `sessionmaker(...)` calls are recorded with the VALUE of their class_ argument."""
+    made = []
+
+    def on_call(mi, call):
+        tok = Opaque(u(call.func))
+        if (m.resolve_call(fs, call) or u(call.func)) in ('sqlalchemy.orm.sessionmaker', 'sqlalchemy.orm.session.sessionmaker'):
+            a = get_arg(call, 1, 'class_')
+            if a is Ellipsis:
+                raise Undecided(f'star-args in {u(call)}')
+            made.append((call, _Sym('<library default Session>') if a is None else mi.ev(a), tok))
+        return tok
+    env = {p: Opaque(p) for p in fs.params()}
+    a = fs.node.args
+    for extra in (a.vararg, a.kwarg):
+        if extra is not None:
+            env[extra.arg] = Opaque(extra.arg)
+    env.update(params)
+    local = {t.id for s in stmts_in(fs.node.body) for tt in assigned_targets(s) for t in ast.walk(tt) if isinstance(t, ast.Name)}
+    for n in ast.walk(fs.node):
+        if isinstance(n, ast.Name) and isinstance(n.ctx, ast.Load) and n.id not in env and n.id not in local:
+            env[n.id] = _Sym(m.resolve(fs.module, n) or n.id)
+    mi = _ClassEval(env, on_call=on_call)
+    ret = None
+    try:
+        mi.run(fs.node.body)
+    except MiniReturn as r:
+        ret = r.value
+    return made, ret
+
+
 def check_session(ctx):
     rep, m = ctx.rep, ctx.model
     ro = m.cls('gambit.db.sqla.ReadOnlySession')
@@ -111,13 +181,26 @@ def check_session(ctx):
     d = fs.param_default('readonly')
     rep.add('W2', fs.site(), 'file_sessionmaker is read-only by default', d is not None and is_const(d, True), expected='readonly=True', found=u(d), stmt='readonly default')
     dc = fs.param_default('cls')
-    gm = guard_map(fs.node)
-    cdef = [s for s in stmts_in(fs.node.body) if isinstance(s, ast.Assign) and u(s.targets[0]) == 'cls']
-    okc = dc is not None and is_none(dc) and len(cdef) == 1 and isinstance(cdef[0].value, ast.IfExp) and u(cdef[0].value.test) == 'readonly' and u(cdef[0].value.body) == 'ReadOnlySession' \
-        and ('is', 'None', 'cls') in path_atoms(gm[cdef[0]])
-    rep.add('W2', fs.site(cdef[0] if cdef else None), 'with no explicit class the read-only session class is chosen exactly when readonly', okc, expected='cls = ReadOnlySession if readonly else Session (under cls is None)', found=[u(c) for c in cdef], stmt='class choice')
-    sm = [c for c in calls_in(fs.node) if u(c.func) == 'sessionmaker']
-    rep.add('W2', fs.site(sm[0] if sm else None), 'the sessionmaker is built with that class', len(sm) == 1 and u(get_kw(sm[0], 'class_')) == 'cls', expected='sessionmaker(engine, class_=cls, **kw)', found=[u(c) for c in sm], stmt='sessionmaker class')
+    # The class the sessions are made with is DECIDED BY EVALUATION of the function body over the finite domain
+    # cls in {None, <explicit class>} x readonly in {True, False} (shape-independent: conditional expression, if/elif chain,
+    # guard clauses, a new local or the rebound parameter are all the same table).
+    explicit = _Sym('<explicit cls>', truthy=True)
+    table, sm_site, why = {}, None, None
+    for cv in (None, explicit):
+        for rv in (True, False):
+            try:
+                made, ret = _run_sessionmaker(m, fs, {'cls': cv, 'readonly': rv})
+            except Undecided as e:
+                raise Undecided(f'file_sessionmaker: session class not evaluable for cls={"None" if cv is None else "explicit"}, readonly={rv}: {e}')
+            sm_site = sm_site or (made[0][0] if made else None)
+            table[('None' if cv is None else 'explicit', rv)] = ([_show(v) for _, v, _t in made], ret is not None and len(made) == 1 and ret is made[0][2])
+    ro_name = 'gambit.db.sqla.ReadOnlySession'
+    okc = dc is not None and is_none(dc) and table[('None', True)][0] == [ro_name] and len(table[('None', False)][0]) == 1 and table[('None', False)][0] != [ro_name]
+    rep.add('W2', fs.site(sm_site), 'with no explicit class the read-only session class is chosen exactly when readonly', okc, expected='cls=None: class_ = ReadOnlySession if readonly else Session',
+            found={f'cls={k[0]},readonly={k[1]}': v[0] for k, v in table.items() if k[0] == 'None'}, stmt='class choice')
+    oks = all(v[0] == ['<explicit cls>'] for k, v in table.items() if k[0] == 'explicit') and all(v[1] for v in table.values())
+    rep.add('W2', fs.site(sm_site), 'the sessionmaker is built with that class (an explicit class is passed through) and is what the function returns', oks, expected='one sessionmaker(engine, class_=<chosen class>, **kw), returned',
+            found={f'cls={k[0]},readonly={k[1]}': v for k, v in table.items()}, stmt='sessionmaker class')
     # every construction of sessions in the package
     n_sites = 0
     for fi, call in m.iter_calls(kinds=('py',)):
@@ -318,6 +401,7 @@ _S = 'src/gambit/db/sqla.py'
 _H = 'src/gambit/sigs/hdf5.py'
 _C = 'src/gambit/cli/common.py'
 _R = 'src/gambit/db/refdb.py'
+_FS_OLD = "\tif cls is None:\n\t\tcls = ReadOnlySession if readonly else Session\n\tengine = create_engine(f'sqlite:///{os.fspath(path)}')\n\treturn sessionmaker(engine, class_=cls, **kw)"
 VARIANTS = [
     V('flush delegates to the base class', 'B', _S, "\t\t# Make flush a no-op\n\t\tpass", "\t\tsuper().flush(*args, **kwargs)", 'W1'),
     V('commit raises only when dirty', 'B', _S, "\t\traise TypeError('Session is read-only')", "\t\tif self.dirty:\n\t\t\traise TypeError('Session is read-only')", 'W1'),
@@ -334,4 +418,16 @@ VARIANTS = [
     V('classifier caches a field on the taxon', 'B', 'src/gambit/classify.py', "\t\tif t.distance_threshold is not None and d <= t.distance_threshold:\n\t\t\treturn t", "\t\tif t.distance_threshold is not None and d <= t.distance_threshold:\n\t\t\tt.extra = dict(matched=True)\n\t\t\treturn t", 'W6'),
     V('E: flush with a docstring only', 'E', _S, "\t\t# Make flush a no-op\n\t\tpass", "\t\t\"\"\"No-op.\"\"\""),
     V("E: explicit mode 'r'", 'E', _H, "h5file = h5.File(path, **kw)", "h5file = h5.File(path, 'r', **kw)"),
+    # class choice decided by evaluation: new shapes + their broken twins
+    V('E: class chosen by an if/elif chain into a new local', 'E', _S, _FS_OLD,
+      "\tengine = create_engine(f'sqlite:///{os.fspath(path)}')\n\tif cls is not None:\n\t\tsession_cls = cls\n\telif readonly:\n\t\tsession_cls = ReadOnlySession\n\telse:\n\t\tsession_cls = Session\n\treturn sessionmaker(engine, class_=session_cls, **kw)"),
+    V('E: class chosen by guard clauses with early returns', 'E', _S, _FS_OLD,
+      "\tengine = create_engine(f'sqlite:///{os.fspath(path)}')\n\tif cls is not None:\n\t\treturn sessionmaker(engine, class_=cls, **kw)\n\tif not readonly:\n\t\treturn sessionmaker(engine, class_=Session, **kw)\n\treturn sessionmaker(engine, class_=ReadOnlySession, **kw)"),
+    V('if/elif chain with the arms swapped', 'B', _S, _FS_OLD,
+      "\tengine = create_engine(f'sqlite:///{os.fspath(path)}')\n\tif cls is not None:\n\t\tsession_cls = cls\n\telif readonly:\n\t\tsession_cls = Session\n\telse:\n\t\tsession_cls = ReadOnlySession\n\treturn sessionmaker(engine, class_=session_cls, **kw)", 'W2'),
+    V('chain computes a new local but the stale parameter is passed', 'B', _S, _FS_OLD,
+      "\tengine = create_engine(f'sqlite:///{os.fspath(path)}')\n\tif cls is not None:\n\t\tsession_cls = cls\n\telif readonly:\n\t\tsession_cls = ReadOnlySession\n\telse:\n\t\tsession_cls = Session\n\treturn sessionmaker(engine, class_=cls, **kw)", 'W2'),
+    V('guard clauses: read-only branch falls through to the plain Session', 'B', _S, _FS_OLD,
+      "\tengine = create_engine(f'sqlite:///{os.fspath(path)}')\n\tif cls is not None:\n\t\treturn sessionmaker(engine, class_=cls, **kw)\n\tif readonly is None:\n\t\treturn sessionmaker(engine, class_=ReadOnlySession, **kw)\n\treturn sessionmaker(engine, class_=Session, **kw)", 'W2'),
+    V('conditional expression with the arms swapped', 'B', _S, "\t\tcls = ReadOnlySession if readonly else Session", "\t\tcls = Session if readonly else ReadOnlySession", 'W2'),
 ]
